@@ -930,6 +930,8 @@ def run(ctx, rep):
     r03i(ctx, rep)
     r03j(ctx, rep)
     r03k(ctx, rep)
+    from . import runloop
+    runloop.r07i(ctx, rep, rule="R03m")
     from . import C18
     C18.r18a(ctx, rep, rule="R03f")
     C18.r18b(ctx, rep, rule="R03f")
